@@ -96,6 +96,16 @@ fn decoder_job(ctx: &Ctx, s: &dyn SuiteOps, kind: Kind, others: &[Vec<u8>], n_ra
             };
             inputs.push(("random".into(), g.bytes(len)));
         }
+        // every length from nothing to a little beyond the encoding: its own prefix (padded
+        // with A5 beyond the end) and a random string of that length
+        if codec == Codec::Native {
+            for len in 0..=enc.len() + 8 {
+                let mut b = enc.clone();
+                b.resize(len, 0xA5);
+                inputs.push(("every_length".into(), b));
+                inputs.push(("every_length".into(), g.bytes(len)));
+            }
+        }
         for _ in 0..n_mut {
             let mut b = enc.clone();
             let class = match g.below(8) {
@@ -423,7 +433,7 @@ pub fn size_judge(w: &World, r: &RunResult) -> Vec<Violation> {
 
 pub fn run(ctx: &Ctx) -> Report {
     let mut rep = Report::new(
-        "(a) no-panic monitor over seeded samples of the C01-C08/C16 world generators; (b) per suite x 11 decoders x {native, bincode, JSON}: random strings (lengths around the valid one) and mutations of valid encodings (bit flips, byte rewrites, truncation, extension, deletion, window splices from unrelated encodings of other kinds and suites, whole-field 00/FF, equal-length field swaps); (c) everything that decodes is pushed through the protocol step that consumes it and re-encoded through all codecs; (d) every catalogue entry (invalid and extreme-valid: scalar 1, 2, order-1) planted in every element/scalar field, same treatment; (e) parameter lengths {0,1,255,256,65535,65536,65537,131072} for password, credential id, each identity, context (server / client / both) and the 65535-prefix twin of an over-long password: no panic, and anything over 65535 bytes must be refused by the call that takes it (identities, context) or by the finish step (password). distinct = (suite, decoder, codec, mutation class, decoded?) + world shapes",
+        "(a) no-panic monitor over seeded samples of the C01-C08/C16 world generators; (b) per suite x 11 decoders x {native, bincode, JSON}: random strings (lengths around the valid one), every length 0..len+8 (own prefix and random) and mutations of valid encodings (bit flips, byte rewrites, truncation, extension, deletion, window splices from unrelated encodings of other kinds and suites, whole-field 00/FF, equal-length field swaps); (c) everything that decodes is pushed through the protocol step that consumes it and re-encoded through all codecs; (d) every catalogue entry (invalid and extreme-valid: scalar 1, 2, order-1) planted in every element/scalar field, same treatment; (e) parameter lengths {0,1,255,256,65535,65536,65537,131072} for password, credential id, each identity, context (server / client / both) and the 65535-prefix twin of an over-long password: no panic, and anything over 65535 bytes must be refused by the call that takes it (identities, context) or by the finish step (password). distinct = (suite, decoder, codec, mutation class, decoded?) + world shapes",
     );
     let suites: Vec<&'static dyn SuiteOps> = SIM_SUITES.to_vec();
     // (b)-(d)
